@@ -1,7 +1,7 @@
 SPECIFICATION Spec
 CONSTANTS
   Dev <- mc_NoDev
-  Vals <- mc_Vals
+  Vals <- mc_Vals3
   Names <- mc_Names
   MaxPos = 3
 INVARIANT Inv
